@@ -50,6 +50,7 @@ type driver struct {
 	m    *monitor
 	cfg  caseCfg
 	rng  *rand.Rand
+	rng2 *rand.Rand // choices added later; separate stream
 	clk  *vclock.Clock
 	stop context.CancelFunc
 
@@ -124,6 +125,7 @@ func runCase(r *ev.Run, cfg caseCfg) {
 	// The action PRNG depends on the base only, so that variants of one base
 	// share their prefix up to the shutdown step.
 	d.rng = r.Rand(2, uint64(cfg.Base))
+	d.rng2 = r.Rand(4, uint64(cfg.Base))
 	vr := r.Rand(3, uint64(cfg.Base), uint64(cfg.Variant))
 	d.postBudget = vr.IntN(16)
 	d.errorsOnly = vr.IntN(3) == 0 && !cfg.Real // every error costs the real loop up to 5 s of wall clock
@@ -639,7 +641,28 @@ func (d *driver) step() {
 				d.selectMaybe = false
 				d.awaitPark = true
 			}
-			d.command(cur, execCmd{emit: rng.IntN(3), complete: true, nonOK: rng.IntN(3) == 0})
+			c := execCmd{emit: rng.IntN(3), complete: true, nonOK: rng.IntN(3) == 0}
+			// Draw the extra choices from a PRNG of their own so that the
+			// main stream (and with it every other decision of the base
+			// history) stays what it was.
+			c.code = nonOKCodes[d.rng2.IntN(len(nonOKCodes))]
+			c.okStyle = d.rng2.IntN(2)
+			owe := d.rng2.IntN(2) == 0
+			if c.nonOK && owe && (!d.cfg.Real || d.errReplies < 2) {
+				// Let the readiness re-check that this failure calls for
+				// fail once or twice before it succeeds.
+				if d.cfg.Real {
+					d.errReplies++
+				}
+				d.m.mu.Lock()
+				d.m.readinessFailures = 1 + d.rng2.IntN(2)
+				if d.cfg.Real {
+					d.m.readinessFailures = 1
+				}
+				d.m.logf("driver: next %d readiness check(s) fail (after the non-OK completion)", d.m.readinessFailures)
+				d.m.mu.Unlock()
+			}
+			d.command(cur, c)
 		}
 		add(25, emit)
 		add(18, complete)
